@@ -123,7 +123,8 @@ func (b *batch) DelCurrent(it storage.Iter) {
 		return
 	}
 
-	if bytes.Compare(b.get(it.Key()), it.Val()) != 0 {
+	// a key that is gone is not the key the iterator has read, also when that one held an empty value
+	if cur := b.get(it.Key()); cur == nil || bytes.Compare(cur, it.Val()) != 0 {
 		b.err = storage.ErrCASFailed
 	}
 
